@@ -26,13 +26,21 @@ import (
 //
 // https://docs.microsoft.com/en-us/typography/opentype/spec/cmap#format-0-byte-encoding-table
 func decodeFormat0(data []byte, code2rune func(c int) rune) (Subtable, error) {
-	if code2rune == nil {
-		code2rune = unicode
-	}
-
 	data = data[6:]
 	if len(data) != 256 {
 		return nil, fmt.Errorf("cmap: format 0: expected 256 bytes, got %d", len(data))
+	}
+
+	if code2rune != nil {
+		// The character codes are not unicode: like the other formats,
+		// return a table which is indexed by unicode code points.
+		res := Format4{}
+		for c, gid := range data {
+			if gid != 0 {
+				res[uint16(code2rune(c))] = glyph.ID(gid)
+			}
+		}
+		return res, nil
 	}
 
 	res := &Format0{}
